@@ -65,6 +65,84 @@ claim(
     "Floats: theorems assume the `FloatLaws` hypotheses (binary64 without NaN modulo sign of zero; `Int` is a lawful instance); the driver runs Lean Float.",
 )
 
+MACHINE = ("The emitted IR is executed by the Lean IR machine (`exec`), the same definition the machine theorems are about; "
+           "'for all inputs of every emitted kernel' is small-scope execution over enumerated problems x formats x inputs, not a theorem.")
+claim(
+    "C02",
+    "PARTIAL. Theorems: a well-formed stored tensor (the predicate of the statement, `wfCheck`) passes the validation that "
+    "unpickling/constructors perform (`wf_validate`), is read back without any out-of-range access and with pairwise distinct "
+    "coordinates (`wf_decode`), and every constructor output is well-formed (`decode_encode`). Kernel outputs: evaluate and "
+    "assemble+compute outputs of enumerated problems at initial capacities 1,2,3,default are checked with `wfCheck` on the final "
+    "machine blocks and on the real LLVM result's raw arrays, which is also pickled, compared, converted and fed to another kernel.",
+    "Lean 4 theorems on the storage model + wfCheck applied to machine-executed and real kernel outputs",
+    "DESIGN.md section 6 C02", MACHINE,
+)
+claim(
+    "C03",
+    "PARTIAL. Theorems on the ported exhaust/context algebra (exact correspondence with the code each run): the written flag is "
+    "raised only at terminals whose exhausted expression is not the literal 0, and then the expression has structural support "
+    "(`exhaust_nonzero_support`), with the exact converse characterisation (`exhaustAll_eq_zero_iff`); exhausting absent tensors "
+    "preserves the value. Kernel outputs (evaluate and assemble, machine and real LLVM) are checked against the structural-support "
+    "oracle level prefix by level prefix.",
+    "Lean 4 theorems on the ported exhaust algebra + support oracle on machine-executed and real kernel outputs",
+    "DESIGN.md section 6 C03", MACHINE,
+)
+claim(
+    "C04",
+    "PARTIAL. Theorem `noAlloc_sound`: a program passing the syntactic certificate `noAlloc` cannot allocate, reallocate, free or "
+    "resize any block, for all states; the certificate is checked on the compute kernel of every enumerated problem (so 'compute "
+    "never reallocates' holds for all inputs of each certified kernel). assemble;compute vs evaluate, structure preservation and "
+    "re-computation with re-valued inputs are executed on the Lean machine for capacities 1,2,3,default.",
+    "Lean 4 frame theorem + per-kernel certificate + histories executed on the Lean IR machine",
+    "DESIGN.md section 6 C04", MACHINE,
+)
+claim(
+    "C05",
+    "PARTIAL. Theorems for all programs, states and fuel: a successful run leaves every input-owned block and tensor record "
+    "unchanged, the heap only grows, dead blocks stay dead, more fuel never changes a run. The machine's semantics is the monitor "
+    "(initialised in-bounds loads from live blocks, stores only into non-input blocks in bounds, int32-checked arithmetic, fuel): "
+    "every emitted kernel (3 kinds) of the enumeration runs on it at capacities 1,2,3,default and must return 0 with live, "
+    "long-enough arrays.",
+    "Lean 4 frame theorems + monitored execution of every emitted kernel on the Lean IR machine",
+    "DESIGN.md section 6 C05", MACHINE + " Allocation-size arithmetic >= 2^29 elements (F9) is not replayed.",
+)
+claim(
+    "C10",
+    "Full at the model level: `callCheck_ok_iff` (the kernel is entered iff the arguments are Consistent: exactly the declared "
+    "parameters, each a tensor of the declared order/modes/ordering, all participants of every index of equal size), "
+    "`callCheck_dims`, `callCheck_err_kind`. The model is compared with TensorMethod.__call__ through a spy on the compiled kernel "
+    "pointer for every single-argument inconsistency of every enumerated problem; the spec oracle is applied to the real call too.",
+    "Lean 4 iff-theorem on the ported validation + exact correspondence (exception class, kernel entered?) with a spy",
+    "DESIGN.md section 6 C10",
+)
+claim(
+    "C11",
+    "PARTIAL. Theorems: the assignment synthesised for + - * (tensor/tensor, tensor/number, number/tensor) denotes element-wise "
+    "arithmetic and for @ the dot / matrix-vector / vector-matrix / matrix product; rejection exactly on shape mismatch; output "
+    "format rule for natural orderings. The synthesised (assignment, format) pair is compared with what the operators hand to "
+    "evaluate (spy); results are decoded from raw arrays and compared with direct arithmetic.",
+    "Lean 4 meaning theorems for the ported operator synthesis + spy correspondence + value oracle",
+    "DESIGN.md section 6 C11", "The kernel behind each operator is C01's (partial).",
+)
+claim(
+    "C15",
+    "PARTIAL. Theorems: make_problem's result is independent of the order of the format mapping and of explicit all-dense "
+    "entries, and lists the tensors in order of appearance (`makeProblem_perm`, `makeProblem_dense_default`, "
+    "`makeProblem_ok_shape`). Text identity across PYTHONHASHSEEDs, request orders and CLI vs library, cache sharing iff equal "
+    "problems and warm vs cold results are observed on the real code.",
+    "Lean 4 theorems on the ported make_problem + byte-identity runs across hash seeds / orders / entry points",
+    "DESIGN.md section 6 C15", "Hash seeds and request orders are sampled.",
+)
+claim(
+    "C16",
+    "PARTIAL. Theorems: `deadVar_frame` (a dead variable cannot influence the run: same iterations and steps from states that "
+    "differ only in it, for all programs/states/fuel), `context_sparse_of_condition` (the property's condition makes the compiler "
+    "classify the loop as sparse) and `context_sparse_sound`. The certificate 'dimension variable <i>_dim is dead' is checked on the "
+    "emitted evaluate kernel of every qualifying problem, and iterations/steps are measured under scalings x1, x10, x10^4.",
+    "Lean 4 non-interference theorem + per-kernel dead-variable certificate + counter measurements on the Lean IR machine",
+    "DESIGN.md section 6 C16", MACHINE,
+)
+
 ALL = [f"C{n:02d}" for n in range(1, 17)]
 for p in ALL:
     if p not in CHECKS:
